@@ -164,6 +164,45 @@ def run_reuse(case):
     return R(None, 'ok', steps=len(targets), tags={'reuse'})
 
 
+# ---------------------------------------------------------------------------
+# path texts with EMPTY segments ('.k', 'k.', '..', ...): a text is split on every dot, the empty string is a key like any other
+
+def mk_empty_tree(depth, counter):
+    if depth == 0:
+        counter[0] += 1
+        return counter[0]
+    return {'': mk_empty_tree(depth - 1, counter), 'k': mk_empty_tree(depth - 1, counter)}
+
+
+def run_empty_segments(case):
+    op, segs, style = case
+    text = '.'.join(segs)
+    ref_t, t = mk_empty_tree(3, [0]), mk_empty_tree(3, [0])
+    cur = ref_t
+    for sname in segs[:-1]:
+        cur = cur[sname]
+    if op == 'delete':
+        del cur[segs[-1]]
+    else:
+        cur[segs[-1]] = 'NEW'
+    from glom import assign, Assign
+    try:
+        if op == 'delete':
+            res = delete(t, text) if style == 'func' else glom(t, Delete(text))
+        else:
+            res = assign(t, text, 'NEW') if style == 'func' else glom(t, Assign(text, 'NEW'))
+    except Exception as e:
+        return R({'expected': repr(ref_t), 'observed': 'raised %r' % (e,), 'text': text, 'op': op}, 'empty-segments')
+    if t != ref_t or res is not t:
+        return R({'expected': repr(ref_t), 'observed': repr(t), 'text': text, 'op': op}, 'empty-segments')
+    return R(None, '%s:%d' % (op, len(segs)), nontrivial=True, steps=len(segs), tags={op, 'leading-empty' if segs[0] == '' else 'leading-k'})
+
+
+def gen_empty_segments(ops=('delete',)):
+    return [[op, list(segs), style] for op in ops for n in (1, 2, 3) for segs in itertools.product(('', 'k'), repeat=n) for style in ('func', 'spec')
+            if segs != ('',)]        # the empty TEXT is the empty path, not a path with one empty segment
+
+
 def gen_reuse(tier):
     names = ['dict', 'list', 'obj', 'none', 'dict2']
     return [[path, ignore, list(seq)] for path in ('a.0', 'a.k', 'a.1') for ignore in (False, True) for n in (2, 3) for seq in itertools.product(names, repeat=n)]
@@ -182,6 +221,11 @@ def subs(tier, only=None):
         out.append(Sub('delete-reuse', gen_reuse(tier), run_reuse,
                        rule='case = (path, ignore_missing, sequence of 2-3 targets whose parent is a dict / list / object / None): ONE Delete object applied to '
                             'each in turn equals a fresh Delete every time', min_nontrivial=100, min_outcomes=1))
+    if only in (None, 'empty-segments'):
+        out.append(Sub('empty-segments', gen_empty_segments(('delete',)), run_empty_segments,
+                       rule="case = (path text over the segments '' and 'k', 1-3 segments, function | spec form) on a tree whose every node has the keys '' and 'k': "
+                            "the effect equals del on the dict reached by splitting the text on every dot",
+                       min_nontrivial=20, min_outcomes=3, required_tags=['leading-empty']))
     if only in (None, 'wildcard-delete'):
         out.append(Sub('wildcard-delete', [c for c in c14.gen_mutate(tier) if c[2].startswith('delete')], c14.run_mutate,
                        rule='case = (tree-shaped target, path with 1-4 wildcards, function|spec form): deletion at every match against a plain loop (shared with C14)',
